@@ -242,6 +242,9 @@ func main() {
 	}
 
 	if r.Replay != "" {
+		if mysqlReplay(r, ks, thorough) { // MySQL replay files (part "mysql-...")
+			r.Finish()
+		}
 		var rp relayReplay
 		r.LoadReplay(&rp)
 		if rp.Part == "relay" {
@@ -305,8 +308,11 @@ func main() {
 	// ---- part 3: codec round trips ----------------------------------------------------------
 	codecPart(r, thorough)
 
+	// ---- MySQL half (mysql.go); last, because it switches the process-wide SQL dialect ----------
+	mysqlPart(r, ks, thorough)
+
 	r.Rule("relay: state = one session (sequence of frontend message groups, each answered by a scripted backend answer); oracle = byte identity of both directed streams; rewrite: rows / binds with <= 4 columns over {NULL, empty, short, protected value, 64 KiB} shapes through a configured table; codecs: all strings over the alphabet up to length 4; distinct_nontrivial = distinct (part, groups/answers or shape, outcome)")
-	r.Assume("PostgreSQL proxy only (MySQL relay is not covered yet)", "independent codec = jackc/pgx pgproto3", "lock-step delivery with Flush / NoticeResponse barriers, which are relayed messages themselves", "Themis stand-in")
+	r.Assume("PostgreSQL: independent codec = jackc/pgx pgproto3", "lock-step delivery with Flush / NoticeResponse barriers, which are relayed messages themselves", "Themis stand-in")
 	r.Finish()
 }
 
